@@ -100,7 +100,7 @@ FinalErr(t, dn) ==
       missed == {kv \in UNION {{<<a, i>> : i \in 1..Len(t.verts[a])} : a \in Kinds(t)} :
                    /\ ~t.prune
                    /\ kv[2] - 1 >= dn[kv[1]]
-                   /\ \E p \in 0..(t.H - 1) : t.verts[kv[1]][kv[2]].end <= SupStart(t, p)}
+                   /\ \E p \in 0..(t.H - 1) : t.verts[kv[1]][kv[2]].end < SupStart(t, p)}   \* strictly before: at a tie the vertex may depend on that supervisor step
   IN IF supDone # t.H THEN Err("RequiredExecuted", <<"supervisor steps inside the horizon">>, t.H, supDone)
      ELSE IF missed # {} THEN Err("RequiredExecuted", <<"prune=False: vertex finished before a supervisor step">>, "executed",
                                   CHOOSE kv \in missed : TRUE)
